@@ -139,6 +139,9 @@ LAYOUTS = {
 }
 
 
+PLATFORM_PRE_EXEC = ['export C10_PLATFORM_READY=yes']
+
+
 class Engine(object):
     """one executor in one pilot sandbox; tasks run one after the other"""
 
@@ -196,6 +199,8 @@ class Engine(object):
         sess._cfg.session_sandbox  = ssbox
         sess._cfg.pilot_sandbox    = psbox
         sess._rcfg = ru.Config(cfg={
+            # what a platform config prescribes for every task (as ornl / access configs do)
+            'task_pre_exec'       : list(PLATFORM_PRE_EXEC),
             'resource_manager'    : 'FORK',
             'agent_spawner'       : 'POPEN',
             'new_session_per_task': True,
@@ -248,10 +253,28 @@ class Engine(object):
                                                         'addr_sub': sub}
 
     # --------------------------------------------------------------------------
-    def run_task(self, td_dict, slots, sandbox_kind):
+    def reset_platform(self):
+        """every case starts from the configured platform settings (a fresh list object), so
+        that what a case observes only depends on the tasks of that case"""
+        self.session._rcfg['task_pre_exec'] = list(PLATFORM_PRE_EXEC)
+
+    def run_predecessor(self, k, kind):
+        """an earlier task of the same executor: trivial executable, own pre_exec"""
+        pre = {'export': ['export C10_PREV_%d=leak' % k],
+               'fail'  : ['false'],
+               'rank'  : [{'0': 'export C10_PREV_R%d=leak' % k}]}[kind]
+        td = {'executable': '/bin/true', 'arguments': [], 'ranks': 1, 'cores_per_rank': 1,
+              'pre_exec': pre}
+        slots = [{'cores': [{'index': 0, 'occupation': 1.0}], 'gpus': [], 'lfs': 0, 'mem': 0,
+                  'node_index': 0, 'node_name': 'localhost', 'version': 1}]
+        obs = self.run_task(td, slots, 'default', uid='task.9%05d' % k)
+        shutil.rmtree(obs['sbox'], ignore_errors=True)
+        return obs
+
+    def run_task(self, td_dict, slots, sandbox_kind, uid=None):
         """td_dict -> real TaskDescription -> verified -> wire copy -> real
         Popen._handle_task (scripts + real launch).  Returns observation dict."""
-        uid = 'task.%06d' % self.layout
+        uid = uid or 'task.%06d' % self.layout
         td  = rp.TaskDescription(dict(td_dict, uid=uid))
         td.verify()
 
